@@ -1,6 +1,113 @@
+(** C14 -- Protocols: each step's parameter values hold exactly over its interval.
+
+    ONLY theorem statements, each closed by [exact <lemma>] + [Print Assumptions].  All statements
+    are about [gen_sim_facts] (REGENERATED from /repo on every run; pinned by [C14_facts_pinned]).
+    [Inv2] is the invariant of every state reachable without a steady-state run
+    (PropsC04.C04_history_invariant_partial), so every theorem below also covers a protocol that
+    CONTINUES an earlier simulation (incl. after update_variable(s)); the guard is C04's.
+    [never_fails] = the solver reports success (an integration failure stops the protocol early:
+    modelled, exercised by the correspondence, not part of the property). *)
 From Coq Require Import QArith List Bool NArith.
 From Sim Require Import Integrator Simulator Protocol SimExec GenSimFacts SimProofs ProtocolProofs.
+Import ListNotations.
+Open Scope Q_scope.
+
 Theorem C14_facts_pinned :
-  gen_sim_facts = mkSimFacts FrameAbs CmpLe FrameAbs CmpLe CmpGe true true false true false 100 1000 CmpLe CmpGt CmpLe true true.
+  gen_sim_facts =
+    mkSimFacts FrameAbs CmpLe FrameAbs CmpLe CmpGe true true false true false 100 1000 CmpLe CmpGt CmpLe true true.
 Proof. vm_compute. reflexivity. Qed.
 Print Assumptions C14_facts_pinned.
+
+(** simulating a protocol IS applying each step's values and simulating to its cumulative end in
+    turn (stopping at the first refusal): the operations issued are exactly
+    [update_parameters u_i ; simulate (start + T_i, steps)] with T_i the cumulative ends of make_protocol
+    and [start] the time reached when the protocol began *)
+Theorem C14_protocol_is_manual :
+  forall (Y P U O : Type) (flow : P -> Q -> Y -> Q -> Y) (solve_ok : P -> Q -> Y -> Q -> bool)
+         (conv : Y -> Y -> bool) (pupd : P -> U -> P) (yovr : Y -> O -> Y)
+         (s : sim Y P) (steps : list (Q * U)) (k : nat),
+    (forall p t y t1, solve_ok p t y t1 = true) -> Inv2 Y P s -> has_errors Y P s = false ->
+    simulate_protocol Y P U flow solve_ok pupd gen_sim_facts s (make_protocol U steps) (S k)
+    = run_strict Y P U O flow solve_ok conv pupd yovr gen_sim_facts s
+        (flat_map (fun r => [OUpdPar (snd r); OSim (reached Y P s + fst r) (Some (S k))]) (make_protocol U steps)).
+Proof. exact (fun Y P U O flow solve_ok conv pupd yovr => protocol_is_manual Y P U O flow solve_ok conv pupd yovr gen_sim_facts (good_of_pinned _ C14_facts_pinned)). Qed.
+Print Assumptions C14_protocol_is_manual.
+
+(** make_protocol: cumulative ends *)
+Theorem C14_make_protocol_cumulative :
+  forall (U : Type) (t d : Q) (u : U) (rest : list (Q * U)),
+    make_protocol_from U t ((d, u) :: rest) = (t + d, u) :: make_protocol_from U (t + d) rest
+    /\ make_protocol U ((d, u) :: rest) = (0 + d, u) :: make_protocol_from U (0 + d) rest.
+Proof. exact (fun U t d u rest => conj eq_refl eq_refl). Qed.
+Print Assumptions C14_make_protocol_cumulative.
+
+(** one step governs its interval: after [update_parameters u] an accepted [simulate] to the step's
+    end appends rows that are the solution UNDER [pupd p u] from the state reached, stamped with
+    times in (reached, end], and records [pupd p u] as the segment's raw_parameters *)
+Theorem C14_step_governs :
+  forall (Y P U : Type) (flow : P -> Q -> Y -> Q -> Y) (solve_ok : P -> Q -> Y -> Q -> bool) (pupd : P -> U -> P)
+         (s : sim Y P) (u : U) (t_end : Q) (m : nat) (s' : sim Y P),
+    Inv2 Y P s -> has_errors Y P s = false ->
+    simulate Y P flow solve_ok gen_sim_facts (update_parameters Y P U pupd s u) t_end (Some (S m)) = (s', Done) ->
+    has_errors Y P s' = false ->
+    let s1 := update_parameters Y P U pupd s u in
+    let h := sim_h Y P s1 t_end m in let rest := sim_rest Y P s1 t_end m in
+    s_mp s1 = pupd (s_mp s) u
+    /\ h == i_t0 (s_int s) /\ i_t0 (s_int s) + shiftv Y P s == reached Y P s
+    /\ incr (h :: rest) /\ appended Y P flow s1 s' h rest
+    /\ reached Y P s' == t_end.
+Proof. exact (fun Y P U flow solve_ok pupd => step_governs Y P U flow solve_ok pupd gen_sim_facts (good_of_pinned _ C14_facts_pinned)). Qed.
+Print Assumptions C14_step_governs.
+
+(** the time-course form: once past its refusal test it IS
+    [update_parameters u_i ; simulate_time_course (the union's points in (T_(i-1), T_i])] per step --
+    half-open windows, so every point of the sorted duplicate-free union of boundaries and requested
+    points that lies in (start, T_n] is requested in exactly one call; by C04_time_course_partial each
+    call appends exactly its points (all are later than the time reached), each once *)
+Theorem C14_protocol_time_course_is_manual :
+  forall (Y P U O : Type) (flow : P -> Q -> Y -> Q -> Y) (solve_ok : P -> Q -> Y -> Q -> bool)
+         (conv : Y -> Y -> bool) (pupd : P -> U -> P) (yovr : Y -> O -> Y)
+         (rows : list (Q * U)) (s : sim Y P) (t_start : Q) (full : list Q),
+    (forall p t y t1, solve_ok p t y t1 = true) -> Inv2 Y P s -> has_errors Y P s = false ->
+    protocol_tc_loop Y P U flow solve_ok pupd gen_sim_facts s t_start full rows
+    = run_strict Y P U O flow solve_ok conv pupd yovr gen_sim_facts s
+        ((fix manual_tc (t0 : Q) (rows : list (Q * U)) : list (op U O) :=
+            match rows with
+            | [] => []
+            | (t_end, u) :: rest =>
+                OUpdPar u :: OTc (filter (fun t => Qltb t0 t && Qle_bool t t_end) full) :: manual_tc t_end rest
+            end) t_start rows).
+Proof. exact (fun Y P U O flow solve_ok conv pupd yovr rows s t_start full => protocol_tc_is_manual Y P U O flow solve_ok conv pupd yovr gen_sim_facts (good_of_pinned _ C14_facts_pinned) rows s t_start full eq_refl eq_refl). Qed.
+Print Assumptions C14_protocol_time_course_is_manual.
+
+(** the half-open windows partition the union: consecutive windows concatenate to the whole window *)
+Theorem C14_windows_partition :
+  forall (l : list Q) (lo mid hi : Q),
+    incr l -> lo <= mid -> mid <= hi ->
+    filter (fun t => Qltb lo t && Qle_bool t mid) l ++ filter (fun t => Qltb mid t && Qle_bool t hi) l
+    = filter (fun t => Qltb lo t && Qle_bool t hi) l.
+Proof. exact windows_partition. Qed.
+Print Assumptions C14_windows_partition.
+
+(** the union of boundaries and requested points is strictly increasing (hence duplicate free) and
+    contains exactly those points *)
+Theorem C14_union_exact :
+  forall (a b : list Q),
+    incr (qunion a b)
+    /\ (forall x, In x a \/ In x b -> exists y, In y (qunion a b) /\ y == x)
+    /\ (forall y, In y (qunion a b) -> In y a \/ In y b).
+Proof. exact qunion_exact. Qed.
+Print Assumptions C14_union_exact.
+
+(** non-vacuity: a continued protocol (after an override) and a protocol time course *)
+Example C14_nonvacuous :
+  let st := [(1, [(0%nat, 2)]); (2, [(0%nat, 1 # 2)]); (1 # 2, [(0%nat, 0)])] in
+  let ops : list xop := [OSim 2 (Some 2%nat); OUpdVar [(1%nat, 0)]; OProt st 2%nat;
+                         OProtTc st [1 # 2; 1; 9 # 4; 3; 7 # 2; 9] true] in
+  xindex (xrun gen_sim_facts (xnew [1; 1] [1; 1 # 2; 0; 0]) ops)
+    = [0; 1; 2; 5 # 2; 3; 4; 5; 21 # 4; 11 # 2; 6; 13 # 2; 31 # 4; 17 # 2; 9]
+  /\ (match s_pars (xrun gen_sim_facts (xnew [1; 1] [1; 1 # 2; 0; 0]) ops) with
+      | Some l => map (fun p => Qred (nthq p 0)) l | None => [] end)
+     = [1; 2; 1 # 2; 0; 2; 1 # 2; 0].
+Proof. vm_compute. split; reflexivity. Qed.
+Print Assumptions C14_nonvacuous.
